@@ -416,7 +416,7 @@ def rules(rep, m):
     scan = scans[0]
     from . import siftrules as _sr
     _sr.scan_range_general(m, cs, scan, "&%s->guard" % cvp)
-    lv = _sr.scan_range_general.last_cursor
+    lv = _sr.scan_range_general.last_index
     entry = "%sheap[%s]" % (P, lv)
     scheds = [y for y in walk(cs.body) if y["kind"] == "CallExpr" and callee_ref(y) == "cmb_event_schedule"]
     r5.instance("%d wake-up site(s)" % len(scheds))
